@@ -50,6 +50,17 @@ func srcDo(op []string) string {
 		case "ke gate":
 			cs, cr, rd := p2pke.VerifGates(op[2] == "1", uint8(u(3)))
 			return b2s(cs) + b2s(cr) + b2s(rd)
+		case "kad dop":
+			// kad dop <findnode|join|get|put> <key> <param> <initial> <net>: the four iterative operations against a
+			// simulated network (the `dht` stream's cases); here the regenerated definitions are evaluated on the same line,
+			// so only the result is compared (a pure Ask cannot record whom it was asked about)
+			prm, _ := strconv.Atoi(op[4])
+			run := dhtDo(op[2], hx.UnHex(op[3]), prm, parseIDs(op[5]), parseDhtNet(op[6]))
+			res := run.result
+			if strings.HasPrefix(res, "asks=") {
+				res = res[strings.IndexByte(res, ' ')+1:]
+			}
+			return res
 		case "kad iter":
 			// kad iter <key> <n> <initial refs> <table>; a node ref is idprefix/info (the id is padded to 32 bytes);
 			// table: id=ref;ref:cont|... ; the callback answers from the table and records whom it was called with
@@ -255,7 +266,10 @@ func srcStream(r *rand.Rand, n int, tier string, o *hx.Out) {
 			emit(fmt.Sprintf("kad xor %s %s %s", hx.Hex(x), hx.Hex(a), hx.Hex(b)))
 			z := append(make([]byte, r.Intn(4)), x...)
 			emit("kad lz " + hx.Hex(z))
-		case 14, 15:
+		case 15:
+			dop, dkey, dparam, dinit, dnet := genDhtCase(r)
+			emit("kad dop " + strings.TrimPrefix(dhtLine(dop, dkey, dparam, dinit, dnet), "dht "))
+		case 14:
 			// dhtIterate against a scripted network: ids share prefixes with the key; duplicates (the same id twice, with
 			// different info) only in small instances, where slices.SortFunc is an insertion sort
 			key := hx.Bytes(r, hx.Pick(r, 32, 32, 32, 4, 1, 0, 33))
